@@ -165,6 +165,11 @@ def gen_cfg(seed: int, faulty: typing.Optional[bool] = None) -> dict:
                 req['hangup'] = True  # the client disconnects before the body is complete
             if web.random() < 0.25:
                 req['loose'] = web.choice(['no-accept', 'no-accept', 'wildcard', 'quality', 'charset', 'case', 'csv', 'csv'])
+    # applications deployed while serving: the inventory grows under the wrapper's descriptor discovery
+    if not burst and not storm and web.random() < 0.25:
+        for app in apps:
+            if web.random() < 0.6:
+                app['deploy_at'] = round(web.random() * 2.5, 3)
     commits = []
     for app in apps:
         if app['kind'] == 'latest' and rng.random() < 0.5 and not burst:
@@ -257,7 +262,9 @@ def simulate(cfg: dict, schedule: typing.Optional[list] = None) -> dict:
     else:
         registry = posix.Registry(template / 'registry', staging=template / 'staging')
     committed: list = []  # (virtual time, project, generation, state value)
-    inventory = serving.Inventory([application.Generic(a['name'], make_selector(a)) for a in cfg['apps']])
+    inventory = serving.Inventory([application.Generic(a['name'], make_selector(a)) for a in cfg['apps']
+                                   if a.get('deploy_at') is None])
+    deployed: dict = {}  # application name -> virtual time at which its descriptor was in the inventory
     serving.DELAYS.clear()
     serving.DELAYS.update({r['rid']: r['delay'] for r in cfg['requests'] if r['delay']})
     kcfg = dict(cfg['kernel'])
@@ -357,6 +364,18 @@ def simulate(cfg: dict, schedule: typing.Optional[list] = None) -> dict:
         if cfg.get('commits'):
             kernel.spawn(trainer, 'trainer', 'process')
 
+        def deployer():
+            for app in sorted((a for a in cfg['apps'] if a.get('deploy_at') is not None), key=lambda a: a['deploy_at']):
+                if app['deploy_at'] > kernel.now:
+                    kernel.sleep(app['deploy_at'] - kernel.now, 'deployer.wait')
+                inventory.deploy(application.Generic(app['name'], make_selector(app)))
+                deployed[app['name']] = kernel.now
+                kernel.note('deployed', app['name'])
+                kernel.stats['fault:application-deployed-while-serving'] += 1
+
+        if any(a.get('deploy_at') is not None for a in cfg['apps']):
+            kernel.spawn(deployer, 'deployer', 'process')
+
         async def canceller(task, req):
             await asyncio.sleep(req['offset'] + req['cancel'])
             if not task.done():
@@ -387,7 +406,7 @@ def simulate(cfg: dict, schedule: typing.Optional[list] = None) -> dict:
     finally:
         if rundir:
             shutil.rmtree(rundir, ignore_errors=True)
-    return {'committed': committed, 'stalled': sum(kernel.stalled.values()), 'records': records, 'outcome': outcome, 'pending': state['pending'], 'steps': kernel.step,
+    return {'deployed': deployed, 'committed': committed, 'stalled': sum(kernel.stalled.values()), 'records': records, 'outcome': outcome, 'pending': state['pending'], 'steps': kernel.step,
             'vtime': kernel.now, 'switches': kernel.switches, 'stats': dict(kernel.stats),
             'probes': dict(kernel.probes), 'digest': kernel.digest(), 'decisions': kernel.decisions,
             'ntasks': len(kernel.tasks)}
@@ -450,6 +469,11 @@ def judge(cfg: dict, result: dict) -> list[dict]:
             continue
         if rec['n'] != 1:
             out.append({'class': 'duplicate-response', 'rid': req['rid'], 'detail': f'{rec["n"]} outcomes'})
+        if (rec['status'] == 'exc' and rec['exc'] == 'MissingError' and app.get('deploy_at') is not None
+                and rec['t0'] <= result.get('deployed', {}).get(app['name'], float('inf')) + 1e-9):
+            result.setdefault('early', 0)
+            result['early'] += 1
+            continue  # asked for before the application was deployed: "not found" is the right answer then
         if req['fail']:
             if rec['status'] != 'exc':
                 out.append({'class': 'missing-failure', 'rid': req['rid'],
@@ -519,6 +543,11 @@ def run_seed(job) -> dict:
         out['harness'] = str(err)[:1500]
         return out
     result['probes']['answered-by-a-generation-committed-while-serving'] = result.get('served_by_new_generation', 0)
+    result['probes']['refused-before-its-application-was-deployed'] = result.get('early', 0)
+    late = {a['name'] for a in cfg['apps'] if a.get('deploy_at') is not None}
+    result['probes']['answered-by-an-application-deployed-while-serving'] = sum(
+        1 for r in cfg['requests'] if cfg['apps'][r['app']]['name'] in late and not r['fail']
+        and result['records'].get(r['rid'], {}).get('status') == 'ok')
     out.update(digest=result['digest'], steps=result['steps'], vtime=result['vtime'], switches=result['switches'],
                stats=result['stats'], probes=result['probes'], nreq=len(cfg['requests']), ntasks=result['ntasks'],
                faulty=cfg['faulty'], ndecisions=len(result['decisions']))
